@@ -26,6 +26,7 @@ type op struct {
 	Arg    string
 	N      int    // attack variant
 	Method string // nav: HTTP method ("" = GET)
+	Scheme string // attacker requests: scheme reported by the proxy ("" = https)
 }
 
 func (o op) String() string {
@@ -525,6 +526,13 @@ func (h *H) attack(o *op) {
 	name := h.w.CookieName()
 	mk := func(cookie string) sim.Req {
 		r := sim.Req{Scheme: "https", Host: h.w.AppHost, Path: tgt, Headers: map[string]string{}}
+		switch o.Scheme {
+		case "":
+		case "none":
+			r.Scheme = ""
+		default:
+			r.Scheme = o.Scheme // plain http, or another spelling: what is answered must be as protected as ever
+		}
 		if cookie != "" {
 			r.Headers["cookie"] = cookie
 		}
@@ -754,6 +762,7 @@ func genOps(c *sim.Case, p opProfile, maxOps int) []op {
 		case 7:
 			o.K = "attack"
 			o.Att = p.attacks[sim.Pick(c, "att", len(p.attacks))]
+			o.Scheme = []string{"", "", "", "http", "HTTPS", "none"}[sim.Pick(c, "att.scheme", 6)]
 			o.B2 = sim.Pick(c, "b2", p.browsers)
 			switch o.Att {
 			case "unknown-id", "chosen-id":
